@@ -173,10 +173,29 @@ CLAIMED = {
 }
 PENDING_REASON = "check not built yet in this round (build order in DESIGN.md §8); not claimed until its Lean model, theorems and correspondence exist"
 
+# the authoritative per-property description is the §9.2 bullet of DESIGN.md (kept current by the builders): use it as the claim text
+import re
+_design = open(os.path.join(HERE, "DESIGN.md")).read()
+def design_bullet(pid):
+    m = re.search(r"^\* \*\*" + pid + r"\*\* (.*?)(?=^\* \*\*C\d\d\*\* |^### )", _design, flags=re.S | re.M)
+    if not m:
+        return None
+    return " ".join(m.group(1).replace("`", "").replace("**", "").split())
+
+PREFIX = ("Machine-checked Lean 4 theorems (unbounded in sizes / lengths / steps unless stated) about an executable model of the code, "
+          "the model tied to /repo on every run by a source translator (lean/QGen regenerated by the property's translate()) and by a "
+          "model/implementation correspondence check through a compiled driver; failing-input search on the real code when an "
+          "obligation breaks. What is proved, generated, compared and NOT proved: ")
 checks = []
 for p in props:
     if p in CLAIMED:
-        c = CLAIMED[p]
+        c = dict(CLAIMED[p])
+        b = design_bullet(p)
+        if b:
+            c["text"] = PREFIX + b
+            c["design"] = "§9.2 " + p + " (and §4 " + p + ")"
+            if "translator" not in c["technique"]:
+                c["technique"] = c["technique"] + " + source-to-Lean translator fragment"
         checks.append({
             "property_id": p,
             "quick_cmd": f"./check {p} --tier quick",
